@@ -26,6 +26,8 @@ type Query {
 	arg(s: String, n: Int, o: In): String!
 	ext: String!
 	hdr: String!
+	"everything the operation context holds as headers (round 6, envelope.go)"
+	hdrs: String!
 	raw: String!
 	k: String!
 	node: Node!
@@ -168,7 +170,7 @@ func tickStream(ctx context.Context, opCtx *graphql.OperationContext) graphql.Re
 		}
 		out := graphql.NewFieldSet(fields)
 		for j, f := range fields {
-			out.Values[j] = graphql.MarshalString(fmt.Sprintf("%s %d/%d op=%s vars=%s", f.Name, i, n, opCtx.OperationName, canon(opCtx.Variables)))
+			out.Values[j] = graphql.MarshalString(fmt.Sprintf("%s %d/%d op=%s vars=%s ext=%s hdrs=%s", f.Name, i, n, opCtx.OperationName, canon(opCtx.Variables), canon(opCtx.Extensions), showHdrs(opCtx.Headers)))
 		}
 		var b bytes.Buffer
 		out.MarshalGQL(&b)
@@ -224,6 +226,8 @@ func (e echoSchema) execObj(octx context.Context, opCtx *graphql.OperationContex
 			s = canon(opCtx.Extensions)
 		case "hdr":
 			s = strings.Join(opCtx.Headers.Values("X-Echo"), "|")
+		case "hdrs":
+			s = showHdrs(opCtx.Headers)
 		case "raw":
 			s = opCtx.RawQuery
 		case "k":
